@@ -1370,11 +1370,11 @@ def fn_large_ext(case, ctx):
 SUBCHECKS = []
 # (off last: a shard stops at its first failing sub-check, and off carries the quad/tetrahedron dialect finding)
 for _f in ["obj", "mesh", "geogram_ascii", "tet", "xyz", "stl", "off"]:
-    SUBCHECKS.append(SubCheck(NAMES[_f], case_strategy(_f), fn_roundtrip, quick=200 if _f == "stl" else 320, thorough=1500))
-    SUBCHECKS.append(SubCheck(NAMES[_f] + "_ext", case_strategy(_f), fn_ext, quick=120 if _f == "stl" else 240, thorough=1000))
+    SUBCHECKS.append(SubCheck(NAMES[_f], case_strategy(_f), fn_roundtrip, quick=160 if _f == "stl" else 240, thorough=1500))
+    SUBCHECKS.append(SubCheck(NAMES[_f] + "_ext", case_strategy(_f), fn_ext, quick=96 if _f == "stl" else 176, thorough=1000))
 # files well above any plausible buffer / chunk size of the readers and writers (1 - 5 MiB); few cases, each costs seconds
-SUBCHECKS.insert(0, SubCheck("counts_ext", counts_case(), fn_counts_ext, quick=48, thorough=60, watchdog=(180, 400)))
-SUBCHECKS.insert(0, SubCheck("counts", counts_case(), fn_counts, quick=72, thorough=80, watchdog=(180, 400)))
+SUBCHECKS.insert(0, SubCheck("counts_ext", counts_case(), fn_counts_ext, quick=40, thorough=60, watchdog=(180, 400)))
+SUBCHECKS.insert(0, SubCheck("counts", counts_case(), fn_counts, quick=64, thorough=80, watchdog=(180, 400)))
 SUBCHECKS.insert(0, SubCheck("large_ext", large_case(), fn_large_ext, quick=24, thorough=12, watchdog=(180, 400)))
 SUBCHECKS.insert(0, SubCheck("large", large_case(), fn_large, quick=24, thorough=12, watchdog=(180, 400)))
 
